@@ -616,12 +616,13 @@ func (m *Monitors) served(h *H, what, repo, real string, want []byte, known bool
 	if !known || rs.dirty {
 		return
 	}
-	if rng != "" {
+	if rng != "" && r.Status != 404 {
 		if msg := rangeOK(h, rng, want, r); msg != "" {
 			m.flag(h, "C02.range", what+": "+msg)
 		}
 		return
 	}
+	// a not-found answer is judged as a read-back, with its cause labels, whether or not a range was asked for
 	if r.Status != 200 {
 		if ms, ok := rs.mans[real]; ok && ms.respLost && r.Status == 404 {
 			// a referrer whose subject was not a manifest of the repository at a collection: the configured policy
